@@ -3,8 +3,10 @@ package h2x
 import (
 	"fmt"
 	"os"
+	"runtime"
 	"strconv"
 	"strings"
+	"sync"
 	"time"
 
 	mlog "github.com/google/martian/v3/log"
@@ -51,14 +53,51 @@ func RunCase(in []string) (out []string) {
 	return []string{"BADCASE"}
 }
 
+// current case, for the runaway watchdog
+var (
+	curMu   sync.Mutex
+	curCase *hx.Case
+)
+
+// watchdog: code under test that loops allocating without bound (e.g. relay.data() with a max
+// frame size of 0) would get the harness killed and lose the failing input.  When the heap passes
+// 1.5 GB the current case is written with OUT "| RUNAWAY" and the harness stops normally.
+func watchdog(cfg *hx.Config) {
+	var ms runtime.MemStats
+	for {
+		time.Sleep(50 * time.Millisecond)
+		runtime.ReadMemStats(&ms)
+		if ms.HeapAlloc > 1500<<20 {
+			curMu.Lock()
+			if curCase != nil {
+				cfg.Emit(hx.Case{Name: curCase.Name, In: curCase.In, Out: []string{"|", "RUNAWAY"}})
+			}
+			cfg.Close()
+			os.Exit(0)
+		}
+	}
+}
+
+func runGuarded(name string, in []string) []string {
+	curMu.Lock()
+	curCase = &hx.Case{Name: name, In: in}
+	curMu.Unlock()
+	out := RunCase(in)
+	curMu.Lock()
+	curCase = nil
+	curMu.Unlock()
+	return out
+}
+
 // Main is the body of cmd/c08 and cmd/c09 (profile selects generator weights).
 func Main(profile string) {
 	mlog.SetLevel(mlog.Silent)
 	cfg := hx.ParseFlags()
 	defer cfg.Close()
+	go watchdog(cfg)
 	pre, replayOnly := cfg.Inputs()
 	for _, c := range pre {
-		cfg.Emit(hx.Case{Name: c.Name, In: c.In, Out: RunCase(c.In)})
+		cfg.Emit(hx.Case{Name: c.Name, In: c.In, Out: runGuarded(c.Name, c.In)})
 	}
 	if replayOnly {
 		return
@@ -67,7 +106,8 @@ func Main(profile string) {
 	n := 0
 	emit := func(kind string, in []string) {
 		n++
-		cfg.Emit(hx.Case{Name: fmt.Sprintf("%s%d", kind, n), In: in, Out: RunCase(in)})
+		name := fmt.Sprintf("%s%d", kind, n)
+		cfg.Emit(hx.Case{Name: name, In: in, Out: runGuarded(name, in)})
 		cfg.Count("kind=" + strings.SplitN(in[0], ":", 2)[0])
 		for _, t := range in[1:] {
 			if in[0] != "PRE" {
@@ -132,6 +172,14 @@ func Main(profile string) {
 		for i := 0; i < nOS; i++ {
 			r := rng.Fork()
 			emit("oset", append([]string{"STEP"}, GenOtherSettings(r, i)...))
+		}
+		for i := 0; i < 12; i++ {
+			r := rng.Fork()
+			mode := "STEP"
+			if i >= 9 {
+				mode = "E2W:0"
+			}
+			emit("badmf", append([]string{mode}, GenBadMaxFrame(r, i)...))
 		}
 	}
 	for i := 0; i < nE2E; i++ {
